@@ -32,6 +32,7 @@ class State:
         self.n = int(plan.get('n', 0))
         self.fault = plan.get('fault', 'none')
         self.arm_text = plan.get('arm_text') or []
+        self.arm_lines = set(plan.get('arm_lines') or [])      # line numbers (of the anchor function) after which counting starts
         self.opcode = plan.get('granularity') == 'opcode'      # count bytecode instructions instead of lines
         self.repo = os.path.join(plan.get('repo', '/repo'), 'pyworkers')
         self.targets = tuple(plan.get('target_files') or [])
@@ -162,7 +163,7 @@ def make_tracer(st):
                     st.last_anchor_line = frame.f_lineno
                     if prev is not None:
                         txt = linecache.getline(frame.f_code.co_filename, prev)
-                        if any(t in txt for t in st.arm_text):
+                        if prev in st.arm_lines or (not st.arm_lines and any(t in txt for t in st.arm_text)):
                             st.armed = True
                 if not st.armed:
                     return local
@@ -188,7 +189,7 @@ def make_tracer(st):
                 if me is not None and type(me).__name__ == st.cls:
                     st.thread = threading.get_ident()
                     st.anchor_frame = frame
-                    if not st.arm_text:
+                    if not st.arm_text and not st.arm_lines:
                         st.armed = True
                     if st.opcode:
                         frame.f_trace_opcodes = True
